@@ -320,7 +320,18 @@ class C14(Check):
         return case()
 
     def corpus(self):
-        return [
+        # the dependency-injection shape of the repository's examples: context first (by name or positionally), a required client parameter,
+        # an excluded parameter with its default, an optional client parameter - called with a positional list and by name
+        di = []
+        for validator, ptype in (('pydantic', {'type': 'int'}), ('jsonschema', {'schema': 0})):
+            for dispatcher in ('sync', 'async'):
+                for ctx_positional in (False, True):
+                    for args in ([7, 3], [7], {'p0': 7, 'p1': 3}, {'p0': 7}):
+                        di.append({'dispatcher': dispatcher, 'validator': validator, 'flavour': 'func', 'ctx': True, 'ctx_positional': ctx_positional, 'excluded': True,
+                                   'excluded_style': 'default', 'excluded_pos': 'middle', 'coerce': dispatcher == 'sync', 'top': {},
+                                   'params': [{'name': 'p0', 'kind': 'PK', **ptype}, {'name': 'p1', 'kind': 'PK', **ptype, 'default': {'value': 5}}],
+                                   'args': {'value': args}})
+        return di + [
             {'dispatcher': 'sync', 'validator': 'pydantic', 'flavour': 'func', 'ctx': False, 'excluded': False, 'coerce': True, 'top': {},
              'params': [{'name': 'p0', 'kind': 'PK', 'type': 'vmodel'}], 'args': {'value': {'p0': {'n': -1}}}},
             {'dispatcher': 'sync', 'validator': 'pydantic', 'flavour': 'func', 'ctx': False, 'excluded': False, 'coerce': True, 'top': {},
